@@ -747,7 +747,7 @@ func (P) Generate(g *core.Gen) {
 		g.Case(class+"-long", nt, line)
 	}
 	// independent instances side by side (hidden shared state between chains / caches)
-	for i, n := 0, g.N(25, 150); i < n; i++ {
+	for i, n := 0, g.N(20, 150); i < n; i++ {
 		var subs []string
 		for k := 0; k < multiMax; k++ {
 			line, _, _ := genChain(r.Fork(), 1+(i+k)%3, 6+2*k, false)
@@ -755,10 +755,10 @@ func (P) Generate(g *core.Gen) {
 		}
 		g.Case("multi8", true, "C03 multi "+strings.Join(subs, " ## "))
 	}
-	for i, n := 0, g.N(400, 3000); i < n; i++ {
+	for i, n := 0, g.N(300, 3000); i < n; i++ {
 		g.Case("view", true, genView(r.Fork()))
 	}
-	for i, n := 0, g.N(2000, 12000); i < n; i++ {
+	for i, n := 0, g.N(1500, 12000); i < n; i++ {
 		line, nt := genCache(r.Fork(), 24)
 		g.Case("cache", nt, line)
 	}
